@@ -1,6 +1,11 @@
-STREAMS = ["c01"]
+import os
+import core
+
+STREAMS = ["c01", "c01l3"]
+NEEDS_BINARY = True
+HARNESS_ARGS = ("-rdpgw", os.path.join(core.BUILD, "rdpgw"))
 RULE = ("(a) exhaustive small scope: every valid prefix (0..5 steps) followed by every continuation of length <= 2 (quick) / 3 "
-        "(thorough) over an 11-symbol packet alphabet x 4 callback configurations x the answer vectors the history can consult; "
+        "(thorough) over a 12-symbol packet alphabet x 4 callback configurations x the answer vectors the history can consult; "
         "(b) mutated valid exchanges (skip, repeat, swap, insert foreign type, truncate, bit flip, refused answer, fragmentation, "
         "coalescing, refused dial target); all through the real Processor.Process on an in-memory transport with scripted "
         "callbacks and loopback backends. distinct = distinct (configuration, read list); non-trivial = at least one response "
